@@ -118,20 +118,26 @@ def rowLe (a b : FRow) : Bool := sortLe a.toRow b.toRow
 
 theorem sortF_eq (t : List FRow) : sortF t = t.mergeSort rowLe := rfl
 
-theorem chromKeyLt_irrefl_eq {a b : Nat × String} (h : (a == b) = true) : chromKeyLt a b = false := by
-  have hab : a = b := by simpa using h
-  subst hab
+theorem string_trichotomy (a b : String) : a < b ∨ a = b ∨ b < a := by
+  by_cases h1 : a < b
+  · exact Or.inl h1
+  · by_cases h2 : b < a
+    · exact Or.inr (Or.inr h2)
+    · exact Or.inr (Or.inl (String.le_antisymm (String.not_lt.mp h2) (String.not_lt.mp h1)))
+
+theorem chromKeyLt_iff (a b : Nat × String) :
+    chromKeyLt a b = true ↔ a.1 < b.1 ∨ (a.1 = b.1 ∧ a.2 < b.2) := by
   simp [chromKeyLt]
 
 theorem chromKey_trichotomy (a b : Nat × String) :
-    chromKeyLt a b = true ∨ (a == b) = true ∨ chromKeyLt b a = true := by
+    chromKeyLt a b = true ∨ a = b ∨ chromKeyLt b a = true := by
   obtain ⟨a1, a2⟩ := a
   obtain ⟨b1, b2⟩ := b
-  simp only [chromKeyLt, Bool.or_eq_true, decide_eq_true_eq, Bool.and_eq_true, beq_iff_eq, Prod.mk.injEq]
+  simp only [chromKeyLt_iff, Prod.mk.injEq]
   rcases Nat.lt_trichotomy a1 b1 with h | h | h
   · left; left; exact h
   · subst h
-    rcases String.lt_trichotomy a2 b2 with h2 | h2 | h2
+    rcases string_trichotomy a2 b2 with h2 | h2 | h2
     · left; right; exact ⟨rfl, h2⟩
     · right; left; exact ⟨rfl, h2⟩
     · right; right; right; exact ⟨rfl, h2⟩
@@ -139,44 +145,54 @@ theorem chromKey_trichotomy (a b : Nat × String) :
 
 theorem chromKeyLt_trans {a b c : Nat × String} (h1 : chromKeyLt a b = true) (h2 : chromKeyLt b c = true) :
     chromKeyLt a c = true := by
-  obtain ⟨a1, a2⟩ := a
-  obtain ⟨b1, b2⟩ := b
-  obtain ⟨c1, c2⟩ := c
-  simp only [chromKeyLt, Bool.or_eq_true, decide_eq_true_eq, Bool.and_eq_true, beq_iff_eq] at *
+  rw [chromKeyLt_iff] at *
   rcases h1 with h1 | ⟨h1, h1'⟩ <;> rcases h2 with h2 | ⟨h2, h2'⟩
   · left; omega
   · left; omega
   · left; omega
   · right; exact ⟨by omega, String.lt_trans h1' h2'⟩
 
+theorem chromKeyLt_irrefl (a : Nat × String) : chromKeyLt a a = false := by
+  cases h : chromKeyLt a a with
+  | false => rfl
+  | true =>
+    rw [chromKeyLt_iff] at h
+    rcases h with h | ⟨_, h⟩
+    · omega
+    · exact absurd h (String.lt_irrefl _)
+
 theorem chromKeyLt_asymm {a b : Nat × String} (h1 : chromKeyLt a b = true) : chromKeyLt b a = false := by
   cases h : chromKeyLt b a with
   | false => rfl
   | true =>
     have := chromKeyLt_trans h1 h
-    obtain ⟨a1, a2⟩ := a
-    simp [chromKeyLt, String.lt_irrefl] at this
+    rw [chromKeyLt_irrefl] at this
+    exact absurd this (by simp)
+
+theorem rowLe_iff (a b : FRow) :
+    rowLe a b = true ↔ chromKeyLt (sorterChrom a.chrom) (sorterChrom b.chrom) = true ∨
+      (sorterChrom a.chrom = sorterChrom b.chrom ∧ (a.s < b.s ∨ (a.s = b.s ∧ a.e ≤ b.e))) := by
+  simp only [rowLe, sortLe, FRow.toRow, Bool.or_eq_true, Bool.and_eq_true, beq_iff_eq]
+  grind
 
 /-- the sort order is total -/
 theorem rowLe_total (a b : FRow) : (rowLe a b || rowLe b a) = true := by
-  simp only [rowLe, sortLe, FRow.toRow]
+  rw [Bool.or_eq_true, rowLe_iff, rowLe_iff]
   rcases chromKey_trichotomy (sorterChrom a.chrom) (sorterChrom b.chrom) with h | h | h
-  · simp [h]
-  · have hab : sorterChrom a.chrom = sorterChrom b.chrom := by simpa using h
-    simp only [hab, beq_self_eq_true, Bool.true_and, Bool.or_eq_true, decide_eq_true_eq, Bool.and_eq_true, beq_iff_eq]
-    by_cases h1 : a.s < b.s
-    · left; right; left; exact h1
+  · left; left; exact h
+  · by_cases h1 : a.s < b.s
+    · left; right; exact ⟨h, Or.inl h1⟩
     · by_cases h2 : b.s < a.s
-      · right; right; left; exact h2
-      · have : a.s = b.s := by omega
+      · right; right; exact ⟨h.symm, Or.inl h2⟩
+      · have hs : a.s = b.s := by omega
         by_cases h3 : a.e ≤ b.e
-        · left; right; right; exact ⟨this, h3⟩
-        · right; right; right; exact ⟨this.symm, by omega⟩
-  · simp [h]
+        · left; right; exact ⟨h, Or.inr ⟨hs, h3⟩⟩
+        · right; right; exact ⟨h.symm, Or.inr ⟨hs.symm, by omega⟩⟩
+  · right; left; exact h
 
 /-- the sort order is transitive -/
 theorem rowLe_trans (a b c : FRow) (h1 : rowLe a b = true) (h2 : rowLe b c = true) : rowLe a c = true := by
-  simp only [rowLe, sortLe, FRow.toRow, Bool.or_eq_true, Bool.and_eq_true, beq_iff_eq, decide_eq_true_eq] at *
+  rw [rowLe_iff] at *
   rcases h1 with h1 | ⟨k1, h1⟩ <;> rcases h2 with h2 | ⟨k2, h2⟩
   · left; exact chromKeyLt_trans h1 h2
   · left; rw [← k2]; exact h1
@@ -209,11 +225,9 @@ theorem sorted_same_chrom (t : List FRow) (h : SortedRows t) :
     t.Pairwise (fun a b => a.chrom = b.chrom → a.s < b.s ∨ (a.s = b.s ∧ a.e ≤ b.e)) := by
   refine h.imp ?_
   intro a b hab hc
-  simp only [rowLe, sortLe, FRow.toRow, hc, Bool.or_eq_true, Bool.and_eq_true, beq_iff_eq,
-    decide_eq_true_eq] at hab
+  rw [rowLe_iff, hc, chromKeyLt_irrefl] at hab
   rcases hab with hab | ⟨_, hab⟩
-  · have := chromKeyLt_irrefl_eq (a := sorterChrom b.chrom) (b := sorterChrom b.chrom) (by simp)
-    rw [this] at hab; exact absurd hab (by simp)
+  · exact absurd hab (by simp)
   · exact hab
 
 /-- in a sorted table the chromosome keys never decrease -/
@@ -221,10 +235,10 @@ theorem sorted_keys_monotone (t : List FRow) (h : SortedRows t) :
     t.Pairwise (fun a b => chromKeyLt (sorterChrom b.chrom) (sorterChrom a.chrom) = false) := by
   refine h.imp ?_
   intro a b hab
-  simp only [rowLe, sortLe, FRow.toRow, Bool.or_eq_true, Bool.and_eq_true, beq_iff_eq] at hab
+  rw [rowLe_iff] at hab
   rcases hab with hab | ⟨hk, _⟩
   · exact chromKeyLt_asymm hab
-  · exact chromKeyLt_irrefl_eq (by simp [hk])
+  · rw [hk]; exact chromKeyLt_irrefl _
 
 /-! ## what `tabio.read` adds after the reader (GenomicArray) -/
 
@@ -236,6 +250,242 @@ theorem finish_ga_nocols (rows : List FRow) (h : ∀ r ∈ rows, r.cols = []) :
     intro r hr
     have := h r hr
     cases r; simp_all
-  simp [finish, sortColumns, hmap, bind, Except.bind, pure, Except.pure]
+  simp [finish, sortColumns, sortNames, hmap, bind, Except.bind, pure, Except.pure]
+
+theorem mapM_map_ok {α β γ} (m : α → β) (f : β → Except String γ) (g : α → γ) (l : List α)
+    (h : ∀ x ∈ l, f (m x) = .ok (g x)) : (l.map m).mapM f = .ok (l.map g) := by
+  induction l with
+  | nil => rfl
+  | cons a t ih =>
+    rw [List.map_cons, List.mapM_cons, h a (by simp), ih (fun x hx => h x (by simp [hx]))]
+    rfl
+
+theorem takeWhile_eq_self_of_all {α} (p : α → Bool) (l : List α) (h : ∀ a ∈ l, p a = true) :
+    l.takeWhile p = l := by
+  induction l with
+  | nil => rfl
+  | cons a t ih =>
+    simp [List.takeWhile, h a (by simp), ih (fun x hx => h x (by simp [hx]))]
+
+theorem dropWhile_eq_nil_of_all {α} (p : α → Bool) (l : List α) (h : ∀ a ∈ l, p a = true) :
+    l.dropWhile p = [] := by
+  induction l with
+  | nil => rfl
+  | cons a t ih =>
+    simp [List.dropWhile, h a (by simp), ih (fun x hx => h x (by simp [hx]))]
+
+theorem takeWhile_append_stop {α} (p : α → Bool) (a : List α) (y : α) (b : List α)
+    (ha : ∀ x ∈ a, p x = true) (hy : p y = false) : (a ++ y :: b).takeWhile p = a := by
+  induction a with
+  | nil => simp [hy]
+  | cons x t ih =>
+    simp [ha x (by simp), ih (fun z hz => ha z (by simp [hz]))]
+
+theorem dropWhile_append_stop {α} (p : α → Bool) (a : List α) (y : α) (b : List α)
+    (ha : ∀ x ∈ a, p x = true) (hy : p y = false) : (a ++ y :: b).dropWhile p = y :: b := by
+  induction a with
+  | nil => simp [hy]
+  | cons x t ih =>
+    simp [ha x (by simp), ih (fun z hz => ha z (by simp [hz]))]
+
+/-! ## BED -/
+
+/-- a chromosome name the BED reader does not mistake for a `track` / `browser` line -/
+def NoTrackName (c : String) : Prop := sw "track" c = false ∧ sw "browser " c = false
+
+theorem track2track_id (lines : List Line)
+    (h : ∀ l ∈ lines, NoTrackName (l.headD "")) : track2track lines = lines := by
+  cases lines with
+  | nil => rfl
+  | cons l rest =>
+    have hl := h l (by simp)
+    have hrest : rest.takeWhile (fun l => !sw "track" (l.headD "")) = rest :=
+      takeWhile_eq_self_of_all _ _ (fun x hx => by
+        have := (h x (by simp [hx])).1
+        simp only [this, Bool.not_false])
+    have h1 := hl.1
+    have h2 := hl.2
+    simp only [track2track]
+    simp only [List.headD_eq_head?_getD] at h1 h2 hrest ⊢
+    simp [h1, h2, hrest]
+
+def coordsOnly (r : FRow) : FRow := { r with cols := [] }
+
+theorem renderLines_writeBed3 (t : FTab) :
+    renderLines (writeBed3 t) =
+      t.rows.map (fun r => [r.chrom, toString (r.s + WRITE_SHIFT_bed3), toString r.e]) := by
+  simp [renderLines, writeBed3, renderCellD, renderCell, List.map_map, Function.comp_def]
+
+theorem parseBedLine_three (c : String) (s e : Int) :
+    parseBedLine [c, toString s, toString e] = .ok ⟨c, s + READ_SHIFT_bed, e, [.str "-", .str "."]⟩ := by
+  simp only [parseBedLine, parseInt_rstrip_toString]
+
+theorem parseBedLine_four (c : String) (s e : Int) (g : String) :
+    parseBedLine [c, toString s, toString e, g] =
+      .ok ⟨c, s + READ_SHIFT_bed, e, [.str (rstrip g), .str "."]⟩ := by
+  simp only [parseBedLine, parseInt_rstrip_toString]
+
+/-- BED3: what `write_bed3` prints, `read_bed3` + sort reads back as the same regions -/
+theorem bed3_roundtrip (t : FTab) (hn : ∀ r ∈ t.rows, NoTrackName r.chrom) (sel : SampleSel) :
+    readFmt "bed3" false sel (renderLines (writeBed3 t)) =
+      .ok { names := [], rows := sortF (t.rows.map coordsOnly) } := by
+  have hshift : ∀ s : Int, s + WRITE_SHIFT_bed3 + READ_SHIFT_bed = s := by
+    intro s; simp only [WRITE_SHIFT_bed3, READ_SHIFT_bed]; omega
+  have htt : track2track (renderLines (writeBed3 t)) = renderLines (writeBed3 t) := by
+    apply track2track_id
+    rw [renderLines_writeBed3]
+    intro l hl
+    obtain ⟨r, hr, rfl⟩ := List.mem_map.mp hl
+    exact hn r hr
+  have hparse : (renderLines (writeBed3 t)).mapM parseBedLine =
+      .ok (t.rows.map (fun r => (⟨r.chrom, r.s, r.e, [.str "-", .str "."]⟩ : FRow))) := by
+    rw [renderLines_writeBed3]
+    apply mapM_map_ok
+    intro r _
+    rw [parseBedLine_three, hshift]
+  have hfin := finish_ga_nocols (t.rows.map coordsOnly) (by
+    intro r hr; obtain ⟨x, _, rfl⟩ := List.mem_map.mp hr; rfl)
+  simp only [readFmt, readBed, htt, hparse, bind, Except.bind, pure, Except.pure]
+  simp only [List.map_map, Function.comp_def, List.take_zero, Nat.sub_self]
+  exact hfin
+
+/-- the gene label of a row as `write_bed4` / `write_interval` print it (`-` when there is no gene column) -/
+def geneStr (t : FTab) (r : FRow) : String :=
+  match (colCell t "gene" r).getD (.str "-") with
+  | .str g => g
+  | _ => ""
+
+/-- gene labels are strings without trailing white space -/
+def WFGene (t : FTab) : Prop :=
+  ∀ r ∈ t.rows, ∃ g, (colCell t "gene" r).getD (.str "-") = .str g ∧ rstrip g = g
+
+theorem geneStr_of {t : FTab} {r : FRow} {g : String}
+    (h : (colCell t "gene" r).getD (.str "-") = .str g) : geneStr t r = g := by
+  simp [geneStr, h]
+
+theorem renderLines_writeBed4 (t : FTab) (h : WFGene t) :
+    renderLines (writeBed4 t) =
+      t.rows.map (fun r => [r.chrom, toString (r.s + WRITE_SHIFT_bed4), toString r.e, geneStr t r]) := by
+  simp only [renderLines, writeBed4, List.map_map]
+  apply List.map_congr_left
+  intro r hr
+  obtain ⟨g, hg, _⟩ := h r hr
+  simp [renderCellD, renderCell, cellOut, hg, geneStr_of hg]
+
+theorem finish_ga_gene (rows : List FRow) (h : ∀ r ∈ rows, ∃ c, r.cols = [c]) :
+    finish false { names := ["gene"], rows := rows } = .ok { names := ["gene"], rows := sortF rows } := by
+  have hmap : rows.map (fun r => ({ r with cols := [r.cols.getD 0 .na] } : FRow)) = rows := by
+    conv => rhs; rw [← List.map_id rows]
+    apply List.map_congr_left
+    intro r hr
+    obtain ⟨c, hc⟩ := h r hr
+    cases r; simp_all
+  have hmap' : rows.map (fun r => ({ r with cols := [r.cols[0]?.getD .na] } : FRow)) = rows := by
+    rw [← hmap]; simp
+  simp [finish, sortColumns, sortNames, insertName, bind, Except.bind, pure, Except.pure]
+  rw [hmap']
+
+/-- BED4: coordinates and gene labels survive `write_bed4` then `read_bed4` -/
+theorem bed4_roundtrip (t : FTab) (hn : ∀ r ∈ t.rows, NoTrackName r.chrom) (hg : WFGene t)
+    (sel : SampleSel) :
+    readFmt "bed4" false sel (renderLines (writeBed4 t)) =
+      .ok { names := ["gene"],
+            rows := sortF (t.rows.map fun r => ⟨r.chrom, r.s, r.e, [.str (geneStr t r)]⟩) } := by
+  have hshift : ∀ s : Int, s + WRITE_SHIFT_bed4 + READ_SHIFT_bed = s := by
+    intro s; simp only [WRITE_SHIFT_bed4, READ_SHIFT_bed]; omega
+  have htt : track2track (renderLines (writeBed4 t)) = renderLines (writeBed4 t) := by
+    apply track2track_id
+    rw [renderLines_writeBed4 t hg]
+    intro l hl
+    obtain ⟨r, hr, rfl⟩ := List.mem_map.mp hl
+    exact hn r hr
+  have hparse : (renderLines (writeBed4 t)).mapM parseBedLine =
+      .ok (t.rows.map (fun r => (⟨r.chrom, r.s, r.e, [.str (geneStr t r), .str "."]⟩ : FRow))) := by
+    rw [renderLines_writeBed4 t hg]
+    apply mapM_map_ok
+    intro r hr
+    obtain ⟨g, hg1, hg2⟩ := hg r hr
+    rw [parseBedLine_four, hshift, geneStr_of hg1, hg2]
+  have hfin := finish_ga_gene (t.rows.map fun r => (⟨r.chrom, r.s, r.e, [.str (geneStr t r)]⟩ : FRow)) (by
+    intro r hr; obtain ⟨x, _, rfl⟩ := List.mem_map.mp hr; exact ⟨_, rfl⟩)
+  simp only [readFmt, readBed, htt, hparse, bind, Except.bind, pure, Except.pure]
+  simp only [List.map_map, Function.comp_def]
+  exact hfin
+
+/-! ## chr:start-end text -/
+
+/-- chromosome names the label pattern `\w[\w.]*` accepts -/
+def LabelName (c : String) : Prop :=
+  (∃ c0 rest, c.toList = c0 :: rest ∧ isWordCh c0 = true) ∧
+  ∀ x ∈ c.toList, (isWordCh x || x == '.') = true
+
+theorem fromLabel_parts (c ds de : List Char) (c0 : Char) (rest : List Char) (hc : c = c0 :: rest)
+    (hw : isWordCh c0 = true) (hall : ∀ x ∈ c, (isWordCh x || x == '.') = true)
+    (hds : ∀ x ∈ ds, x.isDigit = true) (hde : ∀ x ∈ de, x.isDigit = true) :
+    fromLabel (c ++ ':' :: (ds ++ '-' :: de)) = .ok (c, ds, de, []) := by
+  have hcolon : (isWordCh ':' || ':' == '.') = false := by decide
+  have hminus : Char.isDigit '-' = false := by decide
+  have h1 : (c ++ ':' :: (ds ++ '-' :: de)).takeWhile (fun c => isWordCh c || c == '.') = c :=
+    takeWhile_append_stop _ c ':' _ hall hcolon
+  have h2 : (c ++ ':' :: (ds ++ '-' :: de)).dropWhile (fun c => isWordCh c || c == '.') = ':' :: (ds ++ '-' :: de) :=
+    dropWhile_append_stop _ c ':' _ hall hcolon
+  have h3 : (ds ++ '-' :: de).takeWhile Char.isDigit = ds := takeWhile_append_stop _ ds '-' de hds hminus
+  have h4 : (ds ++ '-' :: de).dropWhile Char.isDigit = '-' :: de := dropWhile_append_stop _ ds '-' de hds hminus
+  have h5 : de.takeWhile Char.isDigit = de := takeWhile_eq_self_of_all _ _ hde
+  have h6 : de.dropWhile Char.isDigit = [] := dropWhile_eq_nil_of_all _ _ hde
+  unfold fromLabel
+  rw [h1, h2]
+  subst hc
+  simp only [List.cons_append, hw, ↓reduceIte, h3, h4, h5, h6, List.dropWhile_nil, List.takeWhile_nil]
+
+theorem toLabel_toList (c : String) (a b : Int) :
+    (toLabel c a b).toList =
+      c.toList ++ ':' :: ((toString (a + WRITE_SHIFT_to_label)).toList ++ '-' :: (toString b).toList) := by
+  simp only [toLabel, String.toList_append]
+  have h1 : ":".toList = [':'] := by decide
+  have h2 : "-".toList = ['-'] := by decide
+  rw [h1, h2]
+  simp
+
+/-- one text line: what `to_label` prints, `from_label` parses back -/
+theorem parseTextLine_toLabel (c : String) (a b : Int) (hc : LabelName c)
+    (ha : 0 ≤ a + WRITE_SHIFT_to_label) (hb : 0 ≤ b) :
+    parseTextLine (toLabel c a b) =
+      .ok ⟨c, a + WRITE_SHIFT_to_label + READ_SHIFT_from_label + READ_SHIFT_text_reader, b, [.str "-"]⟩ := by
+  obtain ⟨⟨c0, rest, hc0, hw⟩, hall⟩ := hc
+  have hfl := fromLabel_parts c.toList (toString (a + WRITE_SHIFT_to_label)).toList (toString b).toList
+    c0 rest hc0 hw hall (toString_digits _ ha).2 (toString_digits _ hb).2
+  unfold parseTextLine
+  rw [toLabel_toList, hfl]
+  have hne : c.toList.isEmpty = false := by rw [hc0]; rfl
+  simp only [bind, Except.bind, hne, Bool.false_eq_true, ↓reduceIte, String.ofList_toList, parseInt_toString,
+    List.isEmpty_nil, pure, Except.pure]
+
+theorem renderLines_writeText (t : FTab) :
+    renderLines (writeText t) = t.rows.map (fun r => [toLabel r.chrom (r.s + WRITE_SHIFT_text_writer) r.e]) := by
+  simp [renderLines, writeText, renderCellD, renderCell, List.map_map, Function.comp_def]
+
+/-- text: `write_text` then `read_text` returns the same regions -/
+theorem text_roundtrip (t : FTab) (hn : ∀ r ∈ t.rows, LabelName r.chrom)
+    (hpos : ∀ r ∈ t.rows, 0 ≤ r.s ∧ 0 ≤ r.e) (sel : SampleSel) :
+    readFmt "text" false sel (renderLines (writeText t)) =
+      .ok { names := ["gene"], rows := sortF (t.rows.map fun r => ⟨r.chrom, r.s, r.e, [.str "-"]⟩) } := by
+  have hshift : ∀ s : Int, s + WRITE_SHIFT_text_writer + WRITE_SHIFT_to_label + READ_SHIFT_from_label
+      + READ_SHIFT_text_reader = s := by
+    intro s; simp only [WRITE_SHIFT_text_writer, WRITE_SHIFT_to_label, READ_SHIFT_from_label, READ_SHIFT_text_reader]; omega
+  have hparse : (renderLines (writeText t)).mapM (fun l => parseTextLine (joinTab l)) =
+      .ok (t.rows.map (fun r => (⟨r.chrom, r.s, r.e, [.str "-"]⟩ : FRow))) := by
+    rw [renderLines_writeText]
+    apply mapM_map_ok
+    intro r hr
+    have hp := hpos r hr
+    have hnn : 0 ≤ r.s + WRITE_SHIFT_text_writer + WRITE_SHIFT_to_label := by
+      simp only [WRITE_SHIFT_text_writer, WRITE_SHIFT_to_label]; omega
+    simp only [joinTab]
+    rw [parseTextLine_toLabel _ _ _ (hn r hr) hnn hp.2, hshift]
+  have hfin := finish_ga_gene (t.rows.map fun r => (⟨r.chrom, r.s, r.e, [.str "-"]⟩ : FRow)) (by
+    intro r hr; obtain ⟨x, _, rfl⟩ := List.mem_map.mp hr; exact ⟨_, rfl⟩)
+  simp only [readFmt, readText, hparse, bind, Except.bind, pure, Except.pure]
+  exact hfin
 
 end CnvVerif.Fmt
